@@ -371,15 +371,13 @@ def _real_test(
         if add_inductance:
             A[:, -1] = (1 / w) if admittance else w
 
-        b = _generate_b_vector(
-            "imaginary",
-            (
-                Z_exp ** (-1 if admittance else 1)
-                - circuit.get_impedances(f) ** (-1 if admittance else 1)
-            )
-            ** (-1 if admittance else 1),
-            admittance,
-        )
+        # Use the imaginary part of the difference directly. Inverting the
+        # difference twice (when using the admittance representation) turns
+        # an exact match at any point into NaN.
+        b = (
+            Z_exp ** (-1 if admittance else 1)
+            - circuit.get_impedances(f) ** (-1 if admittance else 1)
+        ).imag.astype(float64)
 
         corrections: NDArray[float64] = lstsq(A, b, rcond=None)[0]
 
